@@ -38,13 +38,14 @@ def parseBindings (s : Str) : List (Option Str × Str) :=
   bs.foldl (fun acc (p, u) => (acc.filter (·.1 != p)) ++ [(p, u)]) []
 
 /-- quirk switches of the `query` op: w = entity references in content are white-space normalised,
-    r = #REQUIRED attributes are materialised -/
+    r = #REQUIRED attributes are materialised, z = string() of negative zero is "-0" -/
 def opQuery (quirks : String) (text bind : Str) (exprs : List Str) : String :=
   match parseDoc text with
   | .ok (idoc, []) =>
     (match buildDoc (quirks.contains 'w') (quirks.contains 'r') idoc with
      | .error _ => "err:doc"
      | .ok d =>
+       let d := { d with negZeroQuirk := quirks.contains 'z' }
        let env : XPath.Env := ⟨d, parseBindings bind⟩
        let outs := exprs.map fun ex =>
          match XPath.query env ex with
